@@ -18,54 +18,10 @@ META = {
 FAMS = ["const"]
 PAR = 8          # parallel TLC processes for Gen and for the judge
 
-# Defects of scriggo demonstrated by this check on the unchanged tree (each reproduced by hand and confirmed
-# by the oracle guard: go/types agrees with the reference).  Signatures are computed by Trace_Const.Sig.
-PROPOSED_KNOWN = [
-    {"kind": "known", "signature": {"fam": "const", "xf64": 1},
-     "what": "constant.go parseBasicLiteral: a float literal with a short mantissa whose exponent is outside float64's range (0x1p1024, 0x1p-1075, 0x3p-1075) is converted through float64 (+Inf / 0 / rounded subnormal): wrong values, invalid constants accepted (float64(7) < 0x1p1024, int(0x1p-1075)), and a host panic from math/big (0x1p1024 / 0x1p1024, 0x1p1024 * 1i)"},
-    {"kind": "known", "signature": {"fam": "const", "fail": "value", "root": "mul", "oc": "complex", "xf64": 0},
-     "what": "constant.go complexConst.binaryOp: imaginary part of a complex product computed as bc-ad instead of bc+ad ((1+2i)*(3+4i) = -5+2i, 7*1i = -7i)"},
-    {"kind": "known", "signature": {"fam": "const", "fail": "value", "root": "quo", "typed": 1, "xf64": 0},
-     "what": "typed float/complex constants with integral values are kept as int64Const, so / is integer division (float64(7)/float64(2) == 3, complex128(1+1i)/complex128(2) == 0)"},
-    {"kind": "known", "signature": {"fam": "const", "fail": "value", "root": "quo", "oc": "complex", "typed": 0, "xf64": 0},
-     "what": "complexConst.binaryOp divides the integer parts of untyped complex constants with integer division: 1i / 2 == 0, (3+1i) / 2 == 1"},
-    {"kind": "known", "signature": {"fam": "const", "fail": "accepts-invalid", "opk": "intonly", "oc": "float", "typed": 1},
-     "what": "checker binaryOp on two constants never consults operatorsOfKind: % & | ^ &^ accepted on typed float constants with integral values (float64(7) % 2)"},
-    {"kind": "known", "signature": {"fam": "const", "fail": "accepts-invalid", "opk": "intonly", "oc": "complex", "typed": 1},
-     "what": "checker binaryOp on two constants never consults operatorsOfKind: % accepted on typed complex constants (complex128(2) % complex128(2))"},
-    {"kind": "known", "signature": {"fam": "const", "fail": "accepts-invalid", "opk": "order", "oc": "complex", "typed": 1},
-     "what": "checker binaryOp on two constants never consults operatorsOfKind: < <= > >= accepted on typed complex constants (complex64(1) < complex64(2))"},
-    {"kind": "known", "signature": {"fam": "const", "fail": "value", "root": "conv", "to": "float", "xf64": 0},
-     "what": "representedBy(float64) returns an integer-valued constant unrounded: float64(9223372036854775807) != 9223372036854775808.0, float64(1<<53+1) keeps 54 bits"},
-    {"kind": "known", "signature": {"fam": "const", "fail": "value", "root": "conv", "to": "complex", "xf64": 0},
-     "what": "representedBy(complex128) returns an integer-valued constant unrounded (same cause as float64(9223372036854775807))"},
-    {"kind": "known", "signature": {"fam": "const", "fail": "rejects-valid", "root": "neq", "oc": "complex"},
-     "what": "complexConst.binaryOp implements == but not !=: 1i != 2i is rejected (operator != not defined on complex128)"},
-    {"kind": "known", "signature": {"fam": "const", "fail": "rejects-valid", "root": "conv", "to": "uint", "xf64": 0},
-     "what": "float64Const.representedBy(unsigned) tests float64(int64(f)) == f, which fails for 2^63 <= f < 2^64: uint64(9223372036854775808.0) is rejected as truncated"},
-    {"kind": "known", "signature": {"fam": "const", "fail": "rejects-valid", "ka": "u.float", "kb": "uint", "xf64": 0},
-     "what": "float64Const.representedBy(unsigned) rejects 2^63 <= f < 2^64 also when the untyped float operand is converted implicitly: 0x1p63 <= uint64(128) is rejected as truncated"},
-    {"kind": "known", "signature": {"fam": "const", "fail": "rejects-valid", "ka": "uint", "kb": "u.float", "xf64": 0},
-     "what": "float64Const.representedBy(unsigned) rejects 2^63 <= f < 2^64 also when the untyped float operand is converted implicitly: uint64(128) <= 0x1p63 is rejected as truncated"},
-    {"kind": "known", "signature": {"fam": "const", "fail": "type", "fsh": 1},
-     "what": "constant shift with an untyped float left operand yields an untyped float (Go: untyped int): 1.0 << 3 has default type float64, (1.0<<3)/16 == 0.5"},
-    {"kind": "known", "signature": {"fam": "const", "fail": "value-unusable", "fsh": 1},
-     "what": "constant shift with an untyped complex left operand (0i << 1) yields an integer constant typed untyped complex; using it (var v int64 = c) panics in reflect.Value.Convert inside the compiler"},
-    {"kind": "known", "signature": {"fam": "const", "fail": "value", "xprec": 1, "typed": 1, "xf64": 0},
-     "what": "an untyped constant that float64 can only hold after rounding (1<<53+1) is not rounded when it is implicitly converted to a typed float64/complex128 operand: 9007199254740993 + complex128(1.5i) keeps 54 bits (same cause as float64(9223372036854775807))"},
-    {"kind": "known", "signature": {"fam": "const", "fail": "accepts-invalid", "opk": "intonly", "oc": "int", "typed": 0},
-     "what": "intConst.binaryOp: & | ^ &^ results are not checked against the 512-bit limit ((-1<<511) ^ (1<<511) accepted; gc: constant overflow)"},
-    {"kind": "known", "signature": {"fam": "const", "fail": "crash", "root": "quo", "oc": "complex", "xf64": 0},
-     "what": "complexConst.binaryOp division ignores the overflow error of c*c+d*d on integer parts: 1i / (1<<511) dereferences a nil *big.Int and panics in the host"},
-    {"kind": "known", "signature": {"fam": "const", "fail": "accepts-invalid", "opk": "shift", "kb": "u.float", "nb": "bin", "xf64": 0},
-     "what": "floatConst.representedBy(unsigned) trusts the accuracy of big.Float.Uint64, which reports Exact for a non-integer with a short mantissa: a computed shift count 7 - 1.5 is accepted as 5 (1 >> (7 - 1.5))"},
-    {"kind": "known", "signature": {"fam": "const", "fail": "accepts-invalid", "root": "conv", "to": "uint", "ka": "u.float", "na": "bin", "xf64": 0},
-     "what": "floatConst.representedBy(unsigned) trusts the accuracy of big.Float.Uint64 (see shift counts): uint8(7 - 1.5) is accepted as 5"},
-    {"kind": "known", "signature": {"fam": "const", "fail": "crash", "root": "cpl", "ka": "uint"},
-     "what": "constant.go maxUnsigned/maxBigUnsigned tables have no entry for uintptr: ^uintptr(1) panics in the host (index out of range [5] with length 5)"},
-    {"kind": "known", "signature": {"fam": "const", "fail": "accepts-invalid", "root": "cpl", "ka": "u.int"},
-     "what": "unary ^ on an untyped integer constant is not checked against the 512-bit limit (^(1<<512-1) accepted; gc: constant bitwise complement overflow)"},
-]
+# Defects of scriggo demonstrated by this check and still present in /repo (signatures are computed by
+# Trace_Const.Sig).  The 22 signatures found on the original tree are all resolved by the `fix:` commits of
+# branch c02fix (see known-findings.json, kind "fixed"); nothing remains.
+PROPOSED_KNOWN = []
 
 
 def _consts(ctx, mode, shard=0, nshards=1):
